@@ -101,7 +101,7 @@ func c16Case(c *core.Ctx) {
 	case "FixedPartition", "VariablePartition", "RatingCurvePartition":
 		x, o1, o2 := in("input"), o("output1"), o("output2")
 		for t := 0; t < T; t++ {
-			if !core.RelClose(o1[t]+o2[t], x[t], tol, 1e-12*math.Abs(x[t])) {
+			if math.Abs(o1[t]+o2[t]-x[t]) > 4e-16*(math.Abs(o1[t])+math.Abs(o2[t])+math.Abs(x[t]))+1e-300 {
 				bad("partition-sum", t, "output1+output2=%v+%v=%v but input=%v", o1[t], o2[t], o1[t]+o2[t], x[t])
 			}
 		}
@@ -141,7 +141,8 @@ func c16Case(c *core.Ctx) {
 	case "PartitionDemand":
 		x, d, of, ex := in("input"), in("demand"), o("outflow"), o("extraction")
 		for t := 0; t < T; t++ {
-			if !core.RelClose(of[t]+ex[t], x[t], tol, 1e-12*math.Abs(x[t])) {
+			// rounding scales with the larger of the two parts (a negative demand makes both parts larger than the input)
+			if math.Abs(of[t]+ex[t]-x[t]) > 4e-16*(math.Abs(of[t])+math.Abs(ex[t])+math.Abs(x[t]))+1e-300 {
 				bad("partition-sum", t, "outflow+extraction=%v but input=%v", of[t]+ex[t], x[t])
 			}
 			if ex[t] > d[t]+1e-12*math.Abs(d[t]) {
